@@ -16,6 +16,11 @@
 #include "strops.h"
 #include "symbol.h"
 #include "symcoinfo.h"
+#ifdef ALDOR_VERIF
+#include "verifhook.h"
+/* H3 driver events: 1-based index of the file being compiled (count of phStartAll calls). */
+int	verifPhFileNo = 0;
+#endif
 
 /*****************************************************************************
  *
@@ -206,6 +211,10 @@ phStartAll(Bool verboseFlag)
 	allPhasesStartGc    = stoBytesGc;
 
 	thisLibStatsSeen    = 0;
+#ifdef ALDOR_VERIF
+	verifPhFileNo += 1;
+	VERIF_EVENT(("{\"ev\":\"FileStart\",\"file\":%d}", verifPhFileNo));
+#endif
 }
 
 void
@@ -219,6 +228,10 @@ phStart(PhTag phno)
 	thisPhaseStartGc    = stoBytesGc;
 
 	phCurrent = &(phInfo[phno]);
+#ifdef ALDOR_VERIF
+	VERIF_EVENT(("{\"ev\":\"PhStart\",\"file\":%d,\"ph\":\"%s\"}",
+		     verifPhFileNo, phCurrent->name));
+#endif
 
 	DEBUG_MODE(phCurrent->flags & PHX_Debug);
 
@@ -283,6 +296,10 @@ phEnd(PhPrFun prf, PhPrFun pprf, Pointer ob)
 		if (prf) prf(osStdout, ob);
 		fprintf(osStdout, "\n\n");
 	}
+#ifdef ALDOR_VERIF
+	VERIF_EVENT(("{\"ev\":\"PhEnd\",\"file\":%d,\"ph\":\"%s\"}",
+		     verifPhFileNo, phCurrent->name));
+#endif
 	if (phCurrent->flags & PHX_Terminates)
 		exitSuccess();
 }
@@ -308,6 +325,9 @@ phEndAll(void)
 	Length		allAlloc, allFree, allGc;
 
 	grandPhasesLines += inclTotalLineCount();
+#ifdef ALDOR_VERIF
+	VERIF_EVENT(("{\"ev\":\"FileEnd\",\"file\":%d}", verifPhFileNo));
+#endif
 
 	if (!allPhasesVerbose) return;
 
